@@ -112,3 +112,17 @@ pub extern "C" fn seq_from_zero(ctx: *mut RLN, leaves: *const Buffer, indices: *
         Err(_) => false,
     }
 }
+
+/// R11-6: the error arm indexes a vector whose length is not established: a panic inside an extern "C" function
+#[no_mangle]
+pub extern "C" fn err_arm_indexes(ctx: *mut RLN, index: usize, input: *const Buffer) -> bool {
+    let r: &mut RLN = ctx.process();
+    match r.set_leaf(index.process(), input.process()) {
+        Ok(()) => true,
+        Err(e) => {
+            let parts: Vec<String> = e.split(':').map(|s| s.to_string()).collect();
+            eprintln!("execution error: {}", parts[1]);
+            false
+        }
+    }
+}
